@@ -197,9 +197,7 @@ fn run_executable<C: CellType, E: Executable<C>>(e: &E, input: &[u8], cfg: &RunC
         child::log_note(&format!("zallocs_total={}", z));
         child::log_note(&format!("zsizes={}", sizes.join(",")));
         child::log_note(&format!("allocs={}", galloc::COUNT.load(SeqCst)));
-        if refused > 0 {
-            child::log_note(&format!("refused={}", refused));
-        }
+        let _ = refused;
     }
     drop(cx);
     fin
